@@ -2,7 +2,10 @@
 
 package server
 
-import "testing"
+import (
+	"testing"
+	"time"
+)
 
 func init() {
 	vfExtraCoreProps = append(vfExtraCoreProps, func(m map[string]*vfCoreProp, base vfProfile) {
@@ -24,4 +27,24 @@ func init() {
 	})
 }
 
-func TestVerif_C15(t *testing.T) { vfRunCoreCheck(t, "C15") }
+func init() {
+	vfCoreStages["C15"] = func(env *vfEnv, part *vfPart, spec *vfSpec) {
+		vfC15RedisStage(env, part)
+		vfC15RedisExtendSpec(spec) // rule, floors, assumptions
+	}
+}
+
+func TestVerif_C15(t *testing.T) {
+	if env := vfGetEnv("C15"); env.Shard < 0 && vfC15RedisOwnsReplay(env) { // --replay of a replays/C15/redis/* file
+		start := time.Now()
+		part := vfNewPart()
+		part.known = vfLoadKnown(env)
+		vfC15RedisStage(env, part)
+		spec := &vfSpec{Prop: "C15", Level: "exploration", NontrivSet: "redis_traces"}
+		vfC15RedisExtendSpec(spec)
+		spec.Floors = nil
+		vfFinish(t, env, spec, part, start)
+		return
+	}
+	vfRunCoreCheck(t, "C15")
+}
